@@ -138,6 +138,107 @@ func main() {
 		sum := sha256.Sum256(raw)
 		ents = append(ents, ent{"module.<deps>@" + f, f, fmt.Sprintf("%x", sum[:10])})
 	}
+	// the LAYOUT of every package directory and of the module root: which files exist (any kind), and for every file what
+	// the function/declaration/assembly fingerprints above do not cover — build constraints, compiler directives, the
+	// package clause and the import block of a .go file (an import swapped for a look-alike package changes no function
+	// text), `+build` and `#include` lines of a .s file, and the raw content of everything else (a local textflag.h, the
+	// verif hook files, element_fuzz.go).  A file added to a package, e.g. one with an init(), changes the layout.
+	sha := func(b []byte) string { x := sha256.Sum256(b); return fmt.Sprintf("%x", x[:10]) }
+	for _, d := range dirs {
+		des, err := os.ReadDir(filepath.Join(repo, d))
+		if err != nil {
+			die("readdir %s: %v", d, err)
+		}
+		var lb bytes.Buffer
+		for _, de := range des {
+			name := de.Name()
+			if strings.HasSuffix(name, "_test.go") {
+				continue
+			}
+			full := filepath.Join(repo, d, name)
+			switch {
+			case de.IsDir():
+				fmt.Fprintf(&lb, "dir %s\n", name)
+			case strings.HasSuffix(name, ".go") && !(strings.HasPrefix(name, "verif_hooks") || name == "element_fuzz.go"):
+				fset := token.NewFileSet()
+				af, err := parser.ParseFile(fset, full, nil, parser.ParseComments)
+				if err != nil {
+					die("parse %s: %v", full, err)
+				}
+				var hb bytes.Buffer
+				for _, cg := range af.Comments {
+					for _, c := range cg.List {
+						if strings.HasPrefix(c.Text, "//go:") || strings.HasPrefix(c.Text, "// +build") || strings.HasPrefix(c.Text, "//+build") ||
+							strings.HasPrefix(c.Text, "//line") || strings.HasPrefix(c.Text, "//export") || strings.HasPrefix(c.Text, "/*line") {
+							hb.WriteString(strings.TrimSpace(c.Text) + "\n")
+						}
+					}
+				}
+				hb.WriteString("package " + af.Name.Name + "\n")
+				for _, im := range af.Imports {
+					n := ""
+					if im.Name != nil {
+						n = im.Name.Name
+					}
+					hb.WriteString("import " + n + " " + im.Path.Value + "\n")
+				}
+				fmt.Fprintf(&lb, "go %s %s\n", name, sha(hb.Bytes()))
+			case strings.HasSuffix(name, ".s"):
+				raw, err := os.ReadFile(full)
+				if err != nil {
+					die("read %s: %v", full, err)
+				}
+				var hb bytes.Buffer
+				for _, l := range strings.Split(string(raw), "\n") {
+					tl := strings.TrimSpace(l)
+					if strings.HasPrefix(tl, "// +build") || strings.HasPrefix(tl, "//+build") || strings.HasPrefix(tl, "//go:") || strings.HasPrefix(tl, "#include") {
+						hb.WriteString(tl + "\n")
+					}
+				}
+				fmt.Fprintf(&lb, "asm %s %s\n", name, sha(hb.Bytes()))
+			default:
+				raw, err := os.ReadFile(full)
+				if err != nil {
+					die("read %s: %v", full, err)
+				}
+				fmt.Fprintf(&lb, "raw %s %s\n", name, sha(raw))
+			}
+		}
+		ents = append(ents, ent{"tree.<layout>@" + d, d, sha(lb.Bytes())})
+	}
+	{
+		des, err := os.ReadDir(repo)
+		if err != nil {
+			die("readdir %s: %v", repo, err)
+		}
+		var lb bytes.Buffer
+		for _, de := range des {
+			name := de.Name()
+			if strings.HasPrefix(name, ".") {
+				continue
+			}
+			switch {
+			case de.IsDir():
+				// only directories that hold Go or assembly code matter (a new package that an import could be redirected to)
+				has := false
+				filepath.WalkDir(filepath.Join(repo, name), func(p string, d os.DirEntry, err error) error {
+					if err == nil && !d.IsDir() && (strings.HasSuffix(p, ".go") || strings.HasSuffix(p, ".s")) {
+						has = true
+					}
+					return nil
+				})
+				if has {
+					fmt.Fprintf(&lb, "dir %s\n", name)
+				}
+			case strings.HasPrefix(name, "go.work") || strings.HasSuffix(name, ".go") || strings.HasSuffix(name, ".s") || strings.HasSuffix(name, ".h"):
+				raw, _ := os.ReadFile(filepath.Join(repo, name))
+				fmt.Fprintf(&lb, "raw %s %s\n", name, sha(raw))
+			default:
+				// LICENSE, README, go.mod/go.sum (pinned above): irrelevant to the build
+			}
+		}
+		ents = append(ents, ent{"tree.<layout>@root", ".", sha(lb.Bytes())})
+	}
 	vend := "absent"
 	if st, err := os.Stat(filepath.Join(repo, "vendor")); err == nil && st.IsDir() {
 		vend = "present"
@@ -151,7 +252,7 @@ func main() {
 	}
 	seq := map[string]int{}
 	for i := range ents {
-		if count[ents[i].key] > 1 && !strings.Contains(ents[i].key, "<decls>") && !strings.Contains(ents[i].key, "<deps>") {
+		if count[ents[i].key] > 1 && !strings.Contains(ents[i].key, "<decls>") && !strings.Contains(ents[i].key, "<deps>") && !strings.Contains(ents[i].key, "<layout>") {
 			ents[i].key += "@" + ents[i].file
 			seq[ents[i].key]++
 			if seq[ents[i].key] > 1 {
